@@ -151,6 +151,14 @@ package contractcourt
 //@   loop * havoc
 //@   site call NewBreachRetribution: assert arg(0) == c.cfg.chanState && arg(1) == broadcastStateNum && arg(3) == commitSpend.SpendingTx
 //@   site call NewAnchorResolution: assert retn(NewBreachRetribution, 1) == nil && arg(2) == retn(NewBreachRetribution, 0).KeyRing
+//@   // 'not a breach' (false, nil) is answered only when the revocation log has no entry for the broadcast state, or the retribution built
+//@   // from it is for another transaction; a recognised breach is reported as handled only after it was dispatched with that retribution
+//@   ensures result1 == nil && !result0 ==> called(NewBreachRetribution) &&
+//@           (retn(NewBreachRetribution, 1) == channeldb.ErrLogEntryNotFound || retn(NewBreachRetribution, 1) == channeldb.ErrNoPastDeltas ||
+//@            (retn(NewBreachRetribution, 1) == nil && retn(NewBreachRetribution, 0).BreachTxHash != ret(TxHash)))
+//@   ensures result1 == nil && result0 ==> called(dispatchContractBreach) && ret(dispatchContractBreach) == nil
+//@   site call dispatchContractBreach: assert arg(1) == commitSpend && arg(2) == chainSet && arg(3) == broadcastStateNum &&
+//@        arg(4) == retn(NewBreachRetribution, 0) && retn(NewBreachRetribution, 1) == nil && arg(5) == retn(NewAnchorResolution, 0)
 //@
 //@ spec func closeTrigger(t int) int = ite(t == channeldb.CooperativeClose, coopCloseTrigger,
 //@        ite(t == channeldb.BreachClose, breachCloseTrigger, ite(t == channeldb.LocalForceClose, localCloseTrigger,
